@@ -480,6 +480,17 @@ func (r *Runner) execMacro(a Action) {
 			return
 		}
 		r.exec(Action{Op: "isolate", Srv: li})
+		if len(a.Set) > 0 && a.Set[0] > 0 {
+			// ... and a membership change that cannot commit: the Restore is refused
+			// and must leave the calls in flight alone
+			for i := range r.ids {
+				if i != li && r.live(i) != nil {
+					r.doMembership(L, []string{"addnonvoter", "demote", "remove"}[a.Set[0]%3], i, 0)
+					break
+				}
+			}
+			r.feat("restore-with-a-membership-change-in-flight")
+		}
 		r.doApply(L, 2+a.N, 0)
 		w.Advance(time.Millisecond, r.sample)
 		r.doUserRestore(L, 3, a.Arg)
